@@ -139,6 +139,14 @@ PROPS = {
         "trusted": ["protojson decoding, net/url.Parse, redis.ParseURL and net.ParseIP are oracles whose answers the harness attaches to the decoded document; proto.Merge and the generated ValidateAll rules are MODELLED (Config/Loader.v) and tied to the code by comparing class and accepted configuration on every generated document"],
         "assumptions": ["the model starts from the decoded message: documents protojson rejects are only checked for 'error, not panic'"],
     },
+    "C19": {
+        "modules": ["Properties.C19"],
+        "theorems": ["C19_tracks_reference", "C19_unreferenced_untouched", "C19_cross_ns_refused"],
+        "describe_item": (lambda d, it: {"filter_or_row": it, "sources": d.get("sources"), "events": d.get("events")}),
+        "trusted": ["controller-runtime's fake client stands for the API server and the controller manager's event delivery is represented by calling Reconcile after each change (hook: NewSecretControllerForVerification, build tag verif)",
+                    "the token request's use of the current value is read through GetClientSecret() and, for a sample, from the Authorization header of a real code exchange"],
+        "assumptions": ["Reconcile calls are serialised (controller-runtime's default of one worker per controller); the data race between Reconcile and checks is C16's business"],
+    },
     "C03": {
         "modules": ["Properties.C03"],
         "theorems": ["C03_login_completes", "C03_lifetime"],
